@@ -100,6 +100,13 @@ func agedSidecar(t *testing.T, r *ev.Run) {
 									recs = append(recs, stored{&pb.DataRowRecord{}, nil})
 								} else {
 									recs = append(recs, stored{cloneDRR(er.GetDataRowRecord()), curPl})
+									// "behaves exactly like the SDK": with --expire-after of one hour no record is written
+									// under an intermediate key older than that
+									if pk := er.GetDataRowRecord().GetKey().GetParentKeyMeta(); pk != nil {
+										if age := time.Since(time.Unix(pk.GetCreated(), 0)); age > o.ExpireAfter {
+											bad("c19-protocol:encrypt", "stream %s, request #%d: the record names an intermediate key that is %s old; the sidecar runs with --expire-after %s", stream, i, age, o.ExpireAfter)
+										}
+									}
 								}
 							case "decrypt":
 								want := recs[cur.rec]
